@@ -404,6 +404,8 @@ class Check:
                     self.machinery_errors.append("crash in driver %s: %s" % (driver, e["crash"][:1500]))
                 bad = True
             for v in out.get("viol") or []:
+                if not v["sig"].startswith(self.prop + "|"):
+                    continue  # the driver also evaluates sibling properties; they are decided by their own checks
                 self.violation(driver, c, v["sig"], v["detail"])
                 bad = True
             dr = out.get("drift") or []
